@@ -76,8 +76,10 @@ Section Parse.
   Definition header_of (c : content) : bytes := get_raw d [c_hl c].
   Definition body_of (c : content) : bytes := get_raw d [c_bl c].
 
-  (* MessageContent.lines = header.lines + body.lines - 1 *)
-  Definition lines_of (c : content) : nat := length (c_hl c) + length (c_bl c) - 1.
+  (* MessageContent.lines = header.lines + body.lines - 1  (-1 for a part
+     without any line) *)
+  Definition lines_of (c : content) : Z :=
+    (Z.of_nat (length (c_hl c) + length (c_bl c)) - 1)%Z.
 
   (* BaseLoadedMessage._get_subpart for a non-empty section (numbers >= 1):
      None = IndexError *)
@@ -156,8 +158,8 @@ Definition get_partial (full : bytes) (partial : option (nat * nat)) : bytes :=
 (* BODY / BODYSTRUCTURE: what is announced (sizes, line counts, nesting) *)
 Inductive bstruct : Type :=
 | BsMulti (subs : list bstruct)
-| BsMsg (size lines : nat) (sub : bstruct)
-| BsText (size lines : nat)
+| BsMsg (size : nat) (lines : Z) (sub : bstruct)
+| BsText (size : nat) (lines : Z)
 | BsOther (size : nat).
 
 Section BodyStructure.
@@ -169,7 +171,7 @@ Section BodyStructure.
     match c with
     | Node hl bl k subs =>
       let size := length (get_raw d [hl; bl]) in
-      let lines := length hl + length bl - 1 in
+      let lines := (Z.of_nat (length hl + length bl) - 1)%Z in
       match k with
       | CtMulti _ =>
         option_map BsMulti
